@@ -18,7 +18,9 @@ GFA1 = {
     "l9": ("L\tC\t-\tB\t-\t2M", ["sB", "sC"]),            # complement of l7
     "l10": ("L\tA\t+\tC\t+\t*\tID:Z:lk", ["sA", "sC"]),
     "l11": ("L\tB\t+\tA\t+\t3M", ["sA", "sB"]),
-    "l12": ("L\tC\t+\tC\t-\t2M1I", ["sC"]),                   # hairpin whose CIGAR is not its own complement
+    "l12": ("L\tC\t+\tC\t-\t2M1I", ["sC"]),
+    "l13": ("L\tA\t+\tC\t-\t2M1I", ["sA", "sC"]),                # a link whose CIGAR is not its own complement ...
+    "l14": ("L\tC\t+\tA\t-\t1D2M", ["sA", "sC"]),                # ... and the same link in its complement form                   # hairpin whose CIGAR is not its own complement
     "c1": ("C\tA\t+\tC\t+\t1\t2M", ["sA", "sC"]),
     "c2": ("C\tB\t-\tC\t+\t0\t*\tID:Z:cn", ["sB", "sC"]),
     "p1": ("P\tp1\tA+,B+\t2M", ["l1"]),
